@@ -224,6 +224,24 @@ def build_http_config(rng, keyname="rsa1024_a", hostile=False, extras=True, allo
             m["data_required"] = rng.choice([0, 1])
             opt.append((77, 1, struct.pack(">H", m["data_required"])))
             m["beacon_gate"] = [rng.choice([0, 1]) if rng.random() < 0.7 else 1 for _ in range(23)]
+            if rng.random() < 0.5:
+                # group boundaries: everything, everything but one API, exactly one group (+/- one API)
+                v = [1] * 23
+                kind = rng.choice(["all", "all-1", "comms", "core", "cleanup", "core-1", "comms+core"])
+                if kind == "all-1":
+                    v[rng.randrange(23)] = 0
+                elif kind == "comms":
+                    v = [1, 1] + [0] * 21
+                elif kind == "core":
+                    v = [0, 0] + [1] * 20 + [0]
+                elif kind == "cleanup":
+                    v = [0] * 22 + [1]
+                elif kind == "core-1":
+                    v = [0, 0] + [1] * 20 + [0]
+                    v[rng.randrange(2, 22)] = 0
+                elif kind == "comms+core":
+                    v = [1] * 22 + [0]
+                m["beacon_gate"] = v
             opt.append((78, 3, bytes(m["beacon_gate"])))
         if rng.random() < 0.5:
             m["sleep_mask"] = rng.choice([0, 1])
